@@ -63,4 +63,4 @@ def root_queue(v, tier, seed):
         v.transitions += res.generated
 
 def replay(path, seed):
-    print(open(path).read()[-3000:]); return 1
+    return replay_lane(PROP, path)
